@@ -77,7 +77,9 @@ def variations_of(cfg):
     Returns list of dicts name->value (only unpacked names)."""
     unp = sorted(cfg["unpacked"], key=lambda nv: nv[0])
     names = [n for n, _ in unp]
-    combos = list(itertools.product(*[vals for _, vals in unp]))
+    combos = list(itertools.product(*[
+        [tuple(v) if isinstance(v, list) else v for v in vals]
+        for _, vals in unp]))
     return names, [dict(zip(names, c)) for c in combos]
 
 
@@ -176,6 +178,8 @@ def make_runner(env, cfg=None):
                 self.params.add(name, value)
             for name, values in cfg["unpacked"]:
                 kind = cfg.get("container", {}).get(name, "list")
+                if kind == "tuples":
+                    values = [tuple(v) for v in values]
                 self.params.add(name, np.array(values) if kind == "array"
                                 else list(values))
                 self.params.set_unpack_parameter(name)
